@@ -343,7 +343,7 @@ func (w *shWorld) expiredSpec(id int) bool {
 func propC44() *simkit.Property {
 	return &simkit.Property{
 		ID: "C44", Level: "exploration", Bubble: true, TapeLimit: 4000,
-		Rule: "each run = one shard (GC batch size 1..5 smaller than the garbage volume, with/without write-cache) and a history of puts (with expirations), tombstones and locks (with expirations), forced marks and container removals over 6-10 objects in 2 containers; then epochs advance past every expiration and GC ticks run on the simulated clock until two consecutive observations are identical (budget 120 passes). Oracle: every object that is tombstoned, marked, expired and unlocked, or in a removed container is gone from blob storage, write-cache and metadata; expired tombstones and locks are gone; removed containers vanish from the metadata; objects with no removal reason are still readable with identical bytes. distinct = trace digest; non-trivial = garbage volume > GC batch size and >=1 retained object",
+		Rule: "each run = one shard (GC batch size 1..5 smaller than the garbage volume, with/without write-cache) and a history of puts (with expirations), tombstones and locks (with expirations), forced marks and container removals over 6-10 objects in 2 containers, in about a third of the runs plus one size-split family (three parts, virtual parent) removed through its parent or with its container; then epochs advance past every expiration and GC ticks run on the simulated clock until two consecutive observations are identical (budget 120 passes). Oracle: every object that is tombstoned, marked, expired and unlocked, or in a removed container is gone from blob storage, write-cache and metadata; expired tombstones and locks are gone; removed containers vanish from the metadata; objects with no removal reason are still readable with identical bytes. distinct = trace digest; non-trivial = garbage volume > GC batch size and >=1 retained object",
 		Run:  runC44,
 		Assumptions: []string{"liveness budget: 120 GC periods of simulated time after the last operation", "expired-objects callback = the engine's behaviour for one shard"},
 		Components:  shardComponents,
@@ -356,9 +356,33 @@ func runC44(r *simkit.R) {
 	cfg.rmBatch = 1 + r.Intn(5)
 	cfg.gcInterval = 1300 * time.Millisecond
 	nreg := 6 + r.Intn(5)
-	w := newShWorld(r, cfg, nreg+6)
-	w.u = zz.NewUniverse(r.U32()%1000, 2, nreg+6)
+	// (about a third of the runs carry one size-split family: a virtual parent known through
+	// the headers of its stored parts, removed as a whole by a tombstone or mark of the parent)
+	fam := r.Bool(35)
+	nids := nreg + 6
+	if fam {
+		nids += 5
+	}
+	w := newShWorld(r, cfg, nids)
+	w.u = zz.NewUniverse(r.U32()%1000, 2, nids)
 	w.layoutSimple(nreg, 3, 3, func() int { return []int{10, 300, 1500}[r.Intn(3)] })
+	famP, famTS := nreg+6, nreg+10
+	famParts := []int{nreg + 7, nreg + 8, nreg + 9}
+	if fam {
+		fc := r.Intn(2)
+		sz := func() int { return []int{10, 300, 1500}[r.Intn(3)] }
+		w.u.Specs[famP] = &zz.Spec{ID: famP, Cnr: fc, Kind: zz.KReg, Parent: -1, First: -1, Split: -1, Exp: -1, Size: 0, Target: -1, ECRule: -1, Virtual: true, Attrs: [][2]string{{"FileName", "big"}}}
+		w.u.Specs[famParts[0]] = &zz.Spec{ID: famParts[0], Cnr: fc, Kind: zz.KReg, Parent: -1, NoIDPa: true, First: -1, Split: -1, Exp: -1, Size: sz(), Target: -1, ECRule: -1}
+		w.u.Specs[famParts[1]] = &zz.Spec{ID: famParts[1], Cnr: fc, Kind: zz.KReg, Parent: -1, First: famParts[0], Split: -1, Exp: -1, Size: sz(), Target: -1, ECRule: -1}
+		w.u.Specs[famParts[2]] = &zz.Spec{ID: famParts[2], Cnr: fc, Kind: zz.KReg, Parent: famP, First: famParts[0], Split: -1, Exp: -1, Size: sz(), Target: -1, ECRule: -1}
+		w.u.Specs[famTS] = &zz.Spec{ID: famTS, Cnr: fc, Kind: zz.KTomb, Parent: -1, First: -1, Split: -1, Exp: 2 + r.Intn(4), Target: famP, ECRule: -1}
+	}
+	famStored, famGone := map[int]bool{}, map[int]bool{}
+	famTouched := false // a removal of the parent was attempted (whatever the outcome)
+	famW := 0
+	if fam {
+		famW = 1
+	}
 	w.open(w.dir)
 	r.OnCleanup(func() { w.close() })
 	r.Logf("config %s", cfg)
@@ -370,7 +394,35 @@ func runC44(r *simkit.R) {
 	auxStored := map[int]bool{}
 	nops := 10 + r.Intn(25)
 	for i := 0; i < nops; i++ {
-		switch r.Weighted(45, 14, 10, 14, 4, 8) {
+		switch r.Weighted(45, 14, 10, 14, 4, 8, 14*famW, 6*famW) {
+		case 6:
+			op := &shOp{kind: "put", id: famParts[r.Intn(3)]}
+			w.seqOp(op)
+			if op.err == nil && !cnrRemoved[w.u.Specs[op.id].Cnr] {
+				famStored[op.id] = true
+			}
+		case 7:
+			// removal of the whole family through its parent: tombstone or mark
+			op := &shOp{kind: "tomb", id: famTS}
+			if r.Bool(40) {
+				op = &shOp{kind: "mark", id: famP}
+			}
+			famTouched = true
+			// (a tombstone that is already stored is acknowledged without being processed again)
+			repeat := op.kind == "tomb" && auxStored[famTS]
+			w.seqOp(op)
+			if op.err == nil {
+				if op.kind == "tomb" {
+					auxStored[famTS] = true
+				}
+				// (the parent is known to the shard only through the part that carries its header)
+				if famStored[famParts[2]] && !repeat {
+					for id := range famStored {
+						famGone[id] = true
+					}
+					r.Probe("split family removed through its parent")
+				}
+			}
 		case 0:
 			op := &shOp{kind: "put", id: r.Intn(nreg)}
 			w.seqOp(op)
@@ -511,7 +563,49 @@ func runC44(r *simkit.R) {
 			}
 		}
 	}
+	if fam {
+		for _, id := range famParts {
+			s := w.u.Specs[id]
+			if !famStored[id] {
+				continue
+			}
+			removable := famGone[id] || cnrRemoved[s.Cnr]
+			if !removable && famTouched {
+				continue // stored after (or without) an effective removal of the parent: not decided
+			}
+			var inB, inW, ex bool
+			var gerr error
+			w.exclusive("final-family", func() {
+				inB, inW = w.physical(id)
+				ex, _ = w.sh.metaBase.Exists(w.addr(id), true)
+				var o *object.Object
+				o, gerr = w.sh.Get(w.addr(id), false)
+				if gerr == nil && !bytes.Equal(o.Marshal(), w.bin(id)) {
+					gerr = errors.New("wrong bytes")
+				}
+			})
+			if removable {
+				garbage++
+				if inB || inW || ex {
+					why := "its parent was tombstoned or marked while it was stored"
+					if cnrRemoved[s.Cnr] {
+						why = "in a removed container"
+					}
+					r.Failf("gc", "part of a split object that should be removed is still there: "+why, "o%d (%s): %s; after GC quiescence: blob=%v cache=%v metadata=%v (GC batch size %d)", id, s, why, inB, inW, ex, cfg.rmBatch)
+				}
+			} else if gerr != nil {
+				r.Failf("gc", "retained object deleted by garbage collection", "part o%d (%s) of a split object nobody removed; after GC quiescence: %v (blob=%v cache=%v)", id, s, gerr, inB, inW)
+			}
+		}
+	}
+	auxIDs := []int{}
 	for id := nreg; id < nreg+6; id++ {
+		auxIDs = append(auxIDs, id)
+	}
+	if fam {
+		auxIDs = append(auxIDs, famTS)
+	}
+	for _, id := range auxIDs {
 		s := w.u.Specs[id]
 		if !auxStored[id] || s.Exp < 0 {
 			continue
